@@ -13,6 +13,10 @@ where
 
     let mut n = 0;
 
+    // Whether the previous chunk had no line feed and ended with a carriage return, i.e., a CRLF
+    // line ending may be split across two chunks.
+    let mut has_trailing_carriage_return = false;
+
     loop {
         let src = reader.fill_buf().await?;
 
@@ -28,13 +32,20 @@ where
                     let end = line.len() - 1;
                     buf.extend_from_slice(&line[..end]);
                 } else {
+                    if line.is_empty() && has_trailing_carriage_return {
+                        buf.pop();
+                    }
+
                     buf.extend_from_slice(line);
                 }
+
+                has_trailing_carriage_return = false;
 
                 i + 1
             }
             None => {
                 buf.extend(src);
+                has_trailing_carriage_return = src.ends_with(&[CARRIAGE_RETURN]);
                 src.len()
             }
         };
